@@ -117,6 +117,7 @@ type GFunc struct {
 	Direct  bool
 	paths   [][]Node
 	pathErr string
+	skels   []*Skeleton
 }
 
 type GEM struct {
@@ -1340,7 +1341,11 @@ func tryParseSkel(src string, mode string) (*ast.File, *token.FileSet, error) {
 
 // Skeletons renders and parses every path (× choice variants) of a function.
 func (g *GEM) Skeletons(gf *GFunc) []*Skeleton {
-	var out []*Skeleton
+	if gf.skels != nil {
+		return gf.skels
+	}
+	out := []*Skeleton{}
+	defer func() { gf.skels = out }()
 	for pi, path := range g.Paths(gf) {
 		choices := g.choiceParts(path)
 		nvar := 1
